@@ -113,7 +113,7 @@ package types
 //@ spec func idxOf(vals *ValidatorSet, addr []byte) int = idxFrom(vals, addr, 0)
 
 //@ func ValidatorSet.GetByAddress
-//@   requires len(vals.Validators) <= 2147483647
+//@   relies r1: len(vals.Validators) <= 2147483647
 //@   assigns nothing
 //@   ensures idx: result0 == old(idxOf(vals, address))
 //@   ensures rng: -1 <= result0 && result0 < len(vals.Validators)
